@@ -10,7 +10,7 @@ SPEC = {
                     "duplicate entries of a neighbour list are compared as sets"],
     'deductive': [("BaseMap.use_latlon setter / __init__ (shared metric selection)", 'setter', r'.')],
     'bounded': [
-        ('same-graph-in-both-backends', map_suites.case_C12, 400, 8000,
+        ('same-graph-in-both-backends', map_suites.case_C12, 600, 20000,
          "integer-labelled graphs of 3-6 nodes incl. self-listed neighbours and one-way edges, planar (75%) or lat-lon; SQLite map filled in bulk, "
          "edge by edge or with deferred commit/index; 2 boxes cutting the node set; non-trivial = >= 3 distinct coordinates", "graphs <= 6 nodes")],
     'extra_builders': {'setter': lambda prog, tier: [M.vc_use_latlon_setter(prog, v) for v in (True, False, None)] +
